@@ -189,6 +189,13 @@ impl CacheBuffer {
     /// Reserve capacity for buffer
     pub fn reserve(&mut self, capacity: usize) {
         self.data_buffer.reserve(capacity);
+
+        // data_slice caches the address of data_buffer, which reserve() may have moved
+        if let Some(view) = self.data_slice {
+            let len = view.len().min(self.data_buffer.len());
+            let data_ptr = self.data_buffer.as_ptr();
+            self.data_slice = Some(unsafe { std::slice::from_raw_parts(data_ptr, len) });
+        }
     }
     
     /// Get buffer capacity
